@@ -98,8 +98,12 @@ struct World {
 
 impl World {
     fn enc_tok(&self, enc: &[u8]) -> String {
-        match self.chans.iter().position(|c| c.enc == enc) {
-            Some(j) => format!("E{j}"),
+        if let Some(j) = self.chans.iter().position(|c| c.enc == enc) {
+            return format!("E{j}");
+        }
+        // an encapsulation is a public key: a device's public key is a valid (if useless) one
+        match self.devs.iter().position(|d| d.pk_raw == enc) {
+            Some(i) => format!("k{}", self.devs[i].idx),
             None => tokb(enc),
         }
     }
@@ -495,7 +499,7 @@ fn main() {
     }
     let mut rng = Rng::new(args.seed);
     let big = args.thorough() || args.search;
-    let cases = args.budget(30, 300);
+    let cases = args.budget(200, 2000);
     for _ in 0..cases {
         let cs = rng.next_u64() >> 1;
         run_case(&mut rec, cs, big);
